@@ -134,6 +134,7 @@ pub fn scenarios(thorough: bool) -> Vec<Scenario> {
     v.push(diamond_scenario("pair-diamond", &[1, 8], if thorough { 4 } else { 3 },
         &[Op::Travel(0, 0), Op::Travel(0, 1), Op::Travel(0, 2), Op::Travel(0, 3), Op::Travel(0, 4), Op::Reload(0), Op::ObjPut(0, 1)]));
     v.push(many_commits_scenario("pair-many-commits", if thorough { 3 } else { 2 }, &[Op::Travel(0, 2), Op::Travel(0, 8), Op::Travel(0, 9), Op::Travel(0, 10), Op::Travel(1, 3), Op::Travel(1, 8), Op::Reload(0), Op::Reload(1)]));
+    v.push(same_edit_scenario("pair-same-edit", if thorough { 4 } else { 3 }, &[Op::Travel(0, 2), Op::Travel(0, 3), Op::Travel(0, 4), Op::Travel(1, 3), Op::Travel(1, 4)]));
     for sc in v.iter_mut() {
         sc.track = true;
         sc.key_opts.heads = true;
